@@ -175,6 +175,9 @@ def run(ctx):
     U.rule_punycode(ctx, "R10")
     from .c20 import protocol_language
     protocol_language(ctx, "R11")
+    # strip_suffix takes the part split_suffix leaves before the suffix: the trie class against the publicsuffix.org algorithm
+    from .c08 import model_table
+    model_table(ctx, "R12")
 
 
 INVARIANCE_BASES = [
